@@ -491,22 +491,30 @@ Qed.
 
 Lemma replace_it_keeps s first last src s' : inv s -> replace_it_m s first last src = Ok s' -> keeps s s'.
 Proof.
-  intros I H. unfold replace_it_m in H.
-  destruct ((0 <=? first) && (first <=? last) && (last <=? get_size s)) eqn:E; [|discriminate].
+  intros I H. pose proof I as (Hc & _ & Hs & _). unfold cap_ok in Hc. unfold replace_it_m in H.
+  pose proof (sz_nonneg first) as Hst. pose proof (sz_nonneg (last - first)) as Hd.
+  set (start := sz first) in *. set (distance := sz (last - first)) in *.
+  destruct (start <=? get_size s) eqn:E; [|discriminate].
+  rewrite (sz_id (get_size s - start)) in H by lia.
+  destruct (distance <=? get_size s - start) eqn:E1; [|discriminate].
   destruct (write_range _ _ _) as [b| | |] eqn:E3; cbn [rbind] in H; try discriminate.
   inversion H; subst s'; clear H. eapply overwrite_keeps; [exact I| | |exact E3]; [lia|].
-  set (n := if zlen src <? last - first then zlen src else last - first).
-  pose proof (zlen_firstn_le src n). assert (n <= last - first) by (unfold n; destruct (zlen src <? last - first) eqn:E2; lia). lia.
+  set (n := if zlen src <? distance then zlen src else distance).
+  pose proof (zlen_firstn_le src n). assert (n <= distance) by (unfold n; destruct (zlen src <? distance) eqn:E2; lia). lia.
 Qed.
 
 Lemma replace_it_fill_keeps s first last count2 ch s' : inv s -> 0 <= count2 ->
   replace_it_fill_m s first last count2 ch = Ok s' -> keeps s s'.
 Proof.
-  intros I Hc H. unfold replace_it_fill_m in H.
-  destruct ((0 <=? first) && (first <=? last) && (last <=? get_size s)) eqn:E; [|discriminate].
+  intros I Hc H. pose proof I as (Hcap & _ & Hs & _). unfold cap_ok in Hcap. unfold replace_it_fill_m in H.
+  pose proof (sz_nonneg first) as Hst. pose proof (sz_nonneg (last - first)) as Hd.
+  set (start := sz first) in *. set (distance := sz (last - first)) in *.
+  destruct (start <=? get_size s) eqn:E; [|discriminate].
+  rewrite (sz_id (get_size s - start)) in H by lia.
+  destruct (distance <=? get_size s - start) eqn:E1; [|discriminate].
   destruct (write_range _ _ _) as [b| | |] eqn:E3; cbn [rbind] in H; try discriminate.
   inversion H; subst s'; clear H. eapply overwrite_keeps; [exact I| | |exact E3]; [lia|].
-  unfold zlen. rewrite repeat_length. unfold min_sz. destruct (count2 <? last - first) eqn:E2; lia.
+  unfold zlen. rewrite repeat_length. unfold min_sz. destruct (count2 <? distance) eqn:E2; lia.
 Qed.
 
 (** * every step, every history *)
